@@ -548,10 +548,10 @@ pub fn run(opts: &Opts) -> Report {
     let mut rng = Rng::new(opts.seed);
     let mut model = Model::spawn();
     let k = if opts.thorough { 10 } else { 1 } * opts.scale;
-    for c in 0..40 * k {
+    for c in 0..90 * k {
         one_case(&mut rep, &mut model, &mut rng, c, "small");
     }
-    for c in 0..6 * k {
+    for c in 0..10 * k {
         one_case(&mut rep, &mut model, &mut rng, 10_000 + c, "fat");
     }
     let longs = if opts.thorough { 3 } else { 1 };
